@@ -93,6 +93,7 @@ def contracts(repo):
         sp.ensures = [(l, t) for l, t in sp.ensures if l in C03_LABELS]
         items.append(sp)
     items.append(canonicalize_spec())
+    items.append(resolve_element_spec())
     return items
 
 
@@ -263,3 +264,39 @@ def bounded(tier, seed):
                      'numeric address, Read/Write Tag Fragmented, Get/Set Attribute Single; after each request every tag is compared with an '
                      'independent array model; plus k = 1..15 Message-Router allocated tags read back individually, and tag names over an ISO-8859-1 alphabet grouped by case folding; distinct = distinct (operation, type, index, count, tag) / (k, i) / name' % steps,
                 exhaustive=False, samples=samples, violations=violations[:20], seed=seed)
+
+
+# ---- resolve_element: the element index a path addresses -------------------------------------------------
+from pyvc.spec import Loop
+from pyvc.vals import RecProto, ListV, RefV, BoolV
+
+RE_N = z3.Int('_g_nseg')
+HAS_EL = z3.Function('seg_has_element', z3.IntSort(), z3.BoolSort())
+EL_VAL = z3.Function('seg_element', z3.IntSort(), z3.IntSort())
+FIRST = z3.Int('_g_first')          # index of the first segment with an element (== nseg if there is none)
+
+
+def path_param(eng, name, st):
+    st = st.clone()
+    i = z3.Int('pi')
+    st.pc += [RE_N >= 0, FIRST >= 0, FIRST <= RE_N,
+              z3.ForAll([i], z3.Implies(z3.And(0 <= i, i < FIRST), z3.Not(HAS_EL(i)))),
+              z3.Implies(FIRST < RE_N, HAS_EL(FIRST))]
+    segs = ListV(RE_N, lambda k: RecProto({'element': (HAS_EL(k), IntV(EL_VAL(k)))}), tag='segments')
+    rid = eng.new_id()
+    st.heap[(rid, 'segment')] = (z3.BoolVal(True), segs)
+    st.heap[(rid, '__closed__')] = True
+    st.heap[(rid, '__keys__')] = ('segment',)
+    eng.init_vals['_g_nseg'] = IntV(RE_N)
+    eng.init_vals['_g_first'] = IntV(FIRST)
+    return RefV(rid, 'rec'), st
+
+
+def resolve_element_spec():
+    return Spec('resolve_element', ("server/enip/device.py", "resolve_element"), params={'path': path_param},
+                loops={0: Loop(index='K', invariant=[('none-yet', 'len(element) == 0 and K <= _g_first')])},
+                ensures=[('the first element segment of the path, else index 0',
+                          'result == ((elval(_g_first),) if _g_first < _g_nseg else (0,))')],
+                raises={}, modifies=[],
+                hints=dict(funcs={'elval': lambda pe, k: IntV(EL_VAL(to_int(k)))}),
+                note='paths of any length; segments are records with an optional `element` key')
